@@ -12,6 +12,7 @@ pub mod chmux_data;
 pub mod chmux_life;
 pub mod chmux_misc;
 pub mod chmux_peer;
+pub mod iochan;
 pub mod robs;
 pub mod rtc;
 pub mod rwlock;
@@ -276,5 +277,26 @@ pub fn upper_cfg(rng: &mut Rng) -> EpCfg {
         max_ports: std::env::var("VERIF_MAX_PORTS").ok().and_then(|v| v.parse().ok()).unwrap_or(64),
         max_recv_ports: 32,
         timeout_ms: 0,
+    }
+}
+
+/// Moves `item` from A to B over a base channel: sends and receives concurrently (the encoded item may exceed the
+/// receive buffer, and a send with embedded ports only completes once the receiver has processed them).  Returns
+/// `None` if the send fails or the item does not arrive; never hangs.
+pub async fn xfer<T: remoc::RemoteSend>(tx: &mut base::Sender<T>, rx: &mut base::Receiver<T>, item: T) -> Option<T> {
+    use futures::future::{Either, select};
+    let send = Box::pin(tx.send(item));
+    let recv = Box::pin(rx.recv());
+    match select(send, recv).await {
+        Either::Left((Ok(()), recv)) => match cancel_after(recv, 20_000).await {
+            Some(Ok(Some(v))) => Some(v),
+            _ => None,
+        },
+        Either::Left((Err(_), _recv)) => None,
+        Either::Right((Ok(Some(v)), send)) => match cancel_after(send, 20_000).await {
+            Some(Ok(())) => Some(v),
+            _ => None,
+        },
+        Either::Right((_, _send)) => None,
     }
 }
